@@ -1,5 +1,5 @@
 (* C15 — property theorems.  Nothing but statements, `exact`, Print Assumptions. *)
-From G11 Require Import Timeouts TimeoutsCheck TimeoutsProofs TimeoutsGeneral Obligations.
+From G11 Require Import Timeouts TimeoutsCheck TimeoutsProofs TimeoutsGeneral TimeoutsHandshake Obligations.
 Open Scope Z_scope.
 
 (* A connection that makes no progress in a phase is closed exactly when the limit in force has
@@ -95,6 +95,36 @@ Theorem T15_head_and_idle_deadline_any_config : forall c pre evs,
 Proof. exact (fun c pre evs Hc => conj (fun Hp Hs => head_deadline c pre evs Hc Hp Hs) (fun Hp Hs => idle_deadline c pre evs Hc Hp Hs)). Qed.
 Print Assumptions T15_head_and_idle_deadline_any_config.
 
+(* The remaining client-wait phases for every configuration: the listener TLS handshake, the MITM wait
+   for the client hello, the MITM handshake and the PROXY header.  After any history, for any stalling
+   behaviour, whatever ReadTimeout is: closed exactly when the phase's own limit has elapsed since the
+   phase was entered, never before, never if the limit is 0.  In particular the whole-request deadline
+   t0 + ReadTimeout that is armed when a CONNECT head is complete cannot cut a MITM handshake short
+   (ob_mitm_replaces_read_deadline: handleMITM replaces it, then clears it). *)
+Theorem T15_handshake_limits_any_config : forall c pre evs,
+  let s := run c (conn_start c) pre in
+  let exact d :=
+    (d <= 0 -> closed (run c s evs) = None) /\
+    (0 < d -> now s < entered s + d ->
+       (closed (run c s evs) = None /\ now (run c s evs) < entered s + d) \/
+       (closed (run c s evs) = Some (entered s + d) /\ entered s + d <= now (run c s evs))) in
+  closed s = None -> forallb (stall (ph s)) evs = true ->
+  (ph s = PLTls -> exact (tls_dur c)) /\ (ph s = PMPeek -> exact (c_mitm c)) /\
+  (ph s = PMTls -> exact (mitm_dur c)) /\ (ph s = PPHdr -> exact (pp_dur c)) /\
+  limit c PLTls = pos (tls_dur c) /\ limit c PMPeek = pos (c_mitm c) /\
+  limit c PMTls = pos (mitm_dur c) /\ limit c PPHdr = pos (pp_dur c).
+Proof.
+  exact (fun c pre evs Hc Hs =>
+    match handshake_deadline c pre evs Hc Hs, handshake_durations c with
+    | conj A (conj B (conj C D)), conj L1 (conj L2 (conj L3 L4)) =>
+        conj A (conj (fun H => B H ob_mitm_replaces_read_deadline)
+          (conj (fun H => C H ob_mitm_replaces_read_deadline)
+            (conj (fun H => D H ob_pp_awaited_first)
+              (conj L1 (conj (L4 ob_mitm_replaces_read_deadline) (conj L2 L3))))))
+    end).
+Qed.
+Print Assumptions T15_handshake_limits_any_config.
+
 (* The limits of the model are the configured ones the property names, phase by phase;
    in particular every phase in which the proxy waits for the client has one. *)
 Theorem T15_limits_are_the_configured_ones : forall c,
@@ -133,3 +163,14 @@ Example T15_example :
   closed (run c s [Tick 100; Bytes; Tick 199]) = None /\
   closed (run c s [Tick 100; Bytes; Tick 250; Bytes]) = Some 330.
 Proof. exact (conj eq_refl (conj eq_refl (conj eq_refl (conj eq_refl (conj eq_refl eq_refl))))). Qed.
+
+(* ... and with ReadTimeout = 350 < tls-handshake-timeout = 500 on a MITM listener: the CONNECT head is
+   complete at 40 (whole-request deadline 10 + 350 = 360 armed), the client then stalls 5 bytes into its
+   hello: cut at 45 + 500, not at 360. *)
+Example T15_example_mitm_read_timeout :
+  let c := mkcfg 420 350 250 500 500 200 false false true in
+  let pre := [Tick 10; Bytes; Tick 30; DoneConnect; Tick 5; Bytes] in
+  let s := run c (conn_start c) pre in
+  closed s = None /\ ph s = PMTls /\ entered s = 45 /\
+  closed (run c s [Tick 400; Bytes]) = None /\ closed (run c s [Tick 400; Bytes; Tick 200]) = Some 545.
+Proof. exact (conj eq_refl (conj eq_refl (conj eq_refl (conj eq_refl eq_refl)))). Qed.
